@@ -438,7 +438,7 @@ func (d *smDrv) writeArgs(c *smCmd) [][]byte {
 		return [][]byte{b("mset"), k, d.val(a[0]), d.key(a[1]), d.val(a[2])}
 	case "setbit":
 		return [][]byte{b("setbit"), k, []byte(strconv.FormatInt(bitOff(a[0]), 10)), it(a[1])}
-	case "incr", "decr", "persist", "hclear", "hpersist", "lpop", "rpop", "lclear", "lpersist", "spop", "sclear", "spersist", "zclear", "zpersist", "bitclear", "bpersist":
+	case "incr", "decr", "persist", "hclear", "hpersist", "lpop", "rpop", "lclear", "lpersist", "spop", "sclear", "spersist", "zclear", "zpersist", "bitclear", "bpersist", "zfixkey", "lfixkey":
 		return [][]byte{b(c.C), k}
 	case "del":
 		return [][]byte{b("del"), k}
@@ -588,7 +588,7 @@ func (d *smDrv) writeReply(c *smCmd, v interface{}) []int {
 		switch c.C {
 		case "getset", "lpop", "rpop", "spop":
 			return rNil
-		case "mset", "hmset", "lset", "ltrim", "setex":
+		case "mset", "hmset", "lset", "ltrim", "setex", "zfixkey", "lfixkey":
 			return rOk
 		}
 		return []int{-1}
@@ -1680,7 +1680,16 @@ func (d *smDrv) bigRun(n int) {
 			}()
 			d.bigFill(ty, k, 0, n-1)
 			d.bigObs(ty, k, n)
+			if ty == 'l' || ty == 'z' {
+				// the repair command on a healthy big collection
+				d.bigOp(ty, k, "fix", nil, []byte(string([]byte{ty})+"fixkey"), k)
+				d.bigObs(ty, k, n)
+			}
 			f()
+			if ty == 'l' || ty == 'z' {
+				d.bigOp(ty, k, "fix", nil, []byte(string([]byte{ty})+"fixkey"), k)
+				d.bigObs(ty, k, n)
+			}
 		}()
 	}
 	// lists
@@ -1839,9 +1848,9 @@ func (g *smGen) iv(vals []int) []int {
 var smGenCmds = map[byte][]string{
 	'k': strings.Fields("set set setnx getset append append incr incrby setrange del del2 mset setx get get strlen exists exists2 mget getrange"),
 	'h': strings.Fields("hset hset hset hsetnx hmset hdel hdel2 hincrby hclear hget hmget hexists hlen hgetall hkeys hvals hkeyexist"),
-	'l': strings.Fields("lpush lpush2 rpush rpush2 lpop rpop lset ltrim lclear llen lindex lrange lkeyexist"),
+	'l': strings.Fields("lfixkey lpush lpush2 rpush rpush2 lpop rpop lset ltrim lclear llen lindex lrange lkeyexist"),
 	's': strings.Fields("sadd sadd sadd2 sadd2 srem srem2 spop spopn sclear scard sismember smembers srandmember skeyexist"),
-	'z': strings.Fields("zadd zadd zadd2 zadd2 zincrby zrem zrem2 zremrangebyrank zremrangebyscore zremrangebylex zclear zcard zscore zrank zrevrank zrange zrevrange zrangebyscore zrevrangebyscore zcount zrangebylex zlexcount zkeyexist zrangebyscorel zrevrangebyscorel zrangebylexl zrangebyscorel zrevrangebyscorel"),
+	'z': strings.Fields("zfixkey zfixkey zadd zadd zadd2 zadd2 zincrby zrem zrem2 zremrangebyrank zremrangebyscore zremrangebylex zclear zcard zscore zrank zrevrank zrange zrevrange zrangebyscore zrevrangebyscore zcount zrangebylex zlexcount zkeyexist zrangebyscorel zrevrangebyscorel zrangebylexl zrangebyscorel zrevrangebyscorel"),
 }
 func init() {
 	// no string commands on bitmap keys in the general corpus: the legacy string -> bitmap conversion is
